@@ -30,7 +30,7 @@
 use mc_core::{par_range, Ctx, Level, Local};
 use mc_ledger::*;
 use radix_engine::blueprints::account::{
-    AccountResourceVaultEntryPayload, DepositEvent as AccountDepositEvent, RejectedDepositEvent as AccountRejectedDepositEvent,
+    AccountCollection, AccountResourceVaultEntryPayload, DepositEvent as AccountDepositEvent, RejectedDepositEvent as AccountRejectedDepositEvent,
     WithdrawEvent as AccountWithdrawEvent,
 };
 use radix_engine::system::system_db_reader::SystemDatabaseReader;
@@ -216,7 +216,6 @@ pub struct Res {
     pub nf: ResourceAddress,
     pub pool: ComponentAddress,
     pub pu: ResourceAddress,
-    pub faucet: ComponentAddress,
 }
 
 pub type Holdings = BTreeMap<ResourceAddress, (Decimal, BTreeSet<NonFungibleLocalId>)>;
@@ -312,7 +311,7 @@ pub fn build_env() -> Env {
         vec![w.a.sig.clone()],
         "A contributes 4 F to the pool",
     );
-    let res = Res { f: w.f18, nf: w.nf, pool, pu, faucet: FAUCET };
+    let res = Res { f: w.f18, nf: w.nf, pool, pu };
     let base = sim.create_snapshot();
     let mut states = vec![];
     let mut mk = |name: &'static str, what: &'static str, sim: &mut Sim, b: ComponentAddress, sig_b: NonFungibleGlobalId| {
@@ -391,10 +390,14 @@ pub fn build_manifest(ops: &[Op], st: &LedgerState, r: &Res, skip: Option<Op>) -
     let (a, bb) = (st.a, st.b);
     let mut b = ManifestBuilder::new_v2().lock_fee(st.c, dec!(100));
     let mut live: Vec<String> = vec![];
-    let mut n = 0usize;
-    let mut fresh = |live: &mut Vec<String>| {
-        let name = format!("b{n}");
-        n += 1;
+    let counter = std::cell::Cell::new(0usize);
+    let next_n = || {
+        let n = counter.get();
+        counter.set(n + 1);
+        n
+    };
+    let fresh = |live: &mut Vec<String>| {
+        let name = format!("b{}", next_n());
         live.push(name.clone());
         name
     };
@@ -450,8 +453,7 @@ pub fn build_manifest(ops: &[Op], st: &LedgerState, r: &Res, skip: Option<Op>) -
                 b.call_method_with_name_lookup(r.pool, ONE_RESOURCE_POOL_CONTRIBUTE_IDENT, |l| (l.bucket(name.as_str()),))
             }
             Op::Redeem | Op::RedeemA => {
-                let name = format!("pu{n}");
-                n += 1;
+                let name = format!("pu{}", next_n());
                 let mut x = b.withdraw_from_account(a, r.pu, dec!(1)).take_all_from_worktop(r.pu, name.as_str());
                 if op == Op::RedeemA {
                     x = x.assert_next_call_returns_only(ManifestResourceConstraints::new().with_exact_amount(r.f, dec!(1)));
@@ -493,6 +495,17 @@ pub fn build_manifest(ops: &[Op], st: &LedgerState, r: &Res, skip: Option<Op>) -
 pub struct Claims {
     pub withdraws: IndexMap<ComponentAddress, NetWithdraws>,
     pub deposits: IndexMap<ComponentAddress, NetDeposits>,
+    /// the per-invocation lists (`resolve_account_deposits` / `resolve_account_withdraws`)
+    pub all_deposits: IndexMap<ComponentAddress, Vec<AccountDeposit>>,
+    pub all_withdraws: IndexMap<ComponentAddress, Vec<AccountWithdraw>>,
+}
+
+impl Claims {
+    fn judge_account(&self, actual: &Actual, acct: &ComponentAddress) -> Vec<Finding> {
+        let mut f = judge(actual, self.withdraws.get(acct), self.deposits.get(acct));
+        f.extend(judge_lists(actual, self.all_withdraws.get(acct), self.all_deposits.get(acct)));
+        f
+    }
 }
 
 /// The analyser, invoked the way the repository's own tests invoke it.
@@ -501,8 +514,10 @@ pub fn analyse(m: &TransactionManifestV2) -> Result<Claims, StaticResourceMoveme
     let mut visitor = StaticResourceMovementsVisitor::new(m.is_subintent());
     interpreter.validate_and_apply_visitor(&mut visitor)?;
     let output = visitor.output();
+    let all_deposits = output.resolve_account_deposits();
+    let all_withdraws = output.resolve_account_withdraws();
     let (withdraws, deposits) = output.resolve_account_changes()?;
-    Ok(Claims { withdraws, deposits })
+    Ok(Claims { withdraws, deposits, all_deposits, all_withdraws })
 }
 
 // ------------------------------------------------------------------------------------------------
@@ -807,19 +822,175 @@ pub fn judge(actual: &Actual, reported_w: Option<&NetWithdraws>, reported_d: Opt
     out
 }
 
+/// Judge the per-invocation lists reported for one account (`Vec<AccountWithdraw>`, `Vec<AccountDeposit>`): these are
+/// gross, one entry per withdraw / deposit call, so per resource the withdrawals must add up exactly to what was
+/// withdrawn, and the sum of the per-call deposit bounds must contain what was deposited.
+pub fn judge_lists(actual: &Actual, withdraws: Option<&Vec<AccountWithdraw>>, deposits: Option<&Vec<AccountDeposit>>) -> Vec<Finding> {
+    let mut out = vec![];
+    // ---- withdrawals
+    let mut w_amt: BTreeMap<ResourceAddress, Decimal> = BTreeMap::new();
+    let mut w_ids: BTreeMap<ResourceAddress, Vec<NonFungibleLocalId>> = BTreeMap::new();
+    for w in withdraws.map(|v| v.as_slice()).unwrap_or(&[]) {
+        match w {
+            AccountWithdraw::Amount(ra, a) => {
+                let e = w_amt.entry(*ra).or_insert(Decimal::ZERO);
+                *e = *e + *a;
+            }
+            AccountWithdraw::Ids(ra, ids) => {
+                let e = w_amt.entry(*ra).or_insert(Decimal::ZERO);
+                *e = *e + Decimal::from(ids.len());
+                w_ids.entry(*ra).or_default().extend(ids.iter().cloned());
+            }
+        }
+    }
+    let mut resources: BTreeSet<ResourceAddress> = actual.flows.iter().filter(|(_, f)| f.w_events > 0).map(|(ra, _)| *ra).collect();
+    resources.extend(w_amt.keys().copied());
+    for ra in resources {
+        let f = actual.flows.get(&ra).cloned().unwrap_or_default();
+        let rep_amt = w_amt.get(&ra).copied().unwrap_or(Decimal::ZERO);
+        let mut rep_ids = w_ids.get(&ra).cloned().unwrap_or_default();
+        let mut act_ids = f.w_ids.clone();
+        rep_ids.sort();
+        act_ids.sort();
+        // a withdrawal reported by amount of a non-fungible resource carries no ids: compare ids only when every
+        // reported withdrawal of the resource carries them
+        let ids_comparable = !ra.is_fungible() && Decimal::from(rep_ids.len()) == rep_amt;
+        if rep_amt != f.w_amt || (ids_comparable && rep_ids != act_ids) {
+            out.push(Finding {
+                kind: format!("all-withdraws-mismatch:{}", if ra.is_fungible() { "fungible" } else { "non-fungible" }),
+                what: format!("{ra:?}: the reported withdrawals add up to {rep_amt} (ids {rep_ids:?}) but {} (ids {act_ids:?}) was withdrawn", f.w_amt),
+                lower_side: false,
+            });
+        }
+    }
+    // ---- deposits
+    let deposits = deposits.map(|v| v.as_slice()).unwrap_or(&[]);
+    let mut resources: BTreeSet<ResourceAddress> = actual.flows.iter().filter(|(_, f)| f.d_events > 0).map(|(ra, _)| *ra).collect();
+    for d in deposits {
+        resources.extend(d.specified_resources().keys().copied());
+    }
+    for ra in resources {
+        let f = actual.flows.get(&ra).cloned().unwrap_or_default();
+        let kind_s = if ra.is_fungible() { "fungible" } else { "non-fungible" };
+        let mut lower_sum = Decimal::ZERO;
+        let mut upper_sum: Option<Decimal> = Some(Decimal::ZERO);
+        let mut certain: Vec<NonFungibleLocalId> = vec![];
+        let mut allowed: Option<BTreeSet<NonFungibleLocalId>> = Some(BTreeSet::new());
+        let add_upper = |u: &mut Option<Decimal>, x: Option<Decimal>| {
+            *u = match (*u, x) {
+                (Some(a), Some(b)) => Some(a + b),
+                _ => None,
+            }
+        };
+        for d in deposits {
+            match d.specified_resources().get(&ra) {
+                None => {
+                    if matches!(d.unspecified_resources(), UnspecifiedResources::MayBePresent(_)) {
+                        add_upper(&mut upper_sum, None);
+                        allowed = None;
+                    }
+                }
+                Some(SimpleResourceBounds::Fungible(b)) => {
+                    let (lo, hi) = match b {
+                        SimpleFungibleResourceBounds::Exact(a) => (*a, Some(*a)),
+                        SimpleFungibleResourceBounds::AtMost(a) => (Decimal::ZERO, Some(*a)),
+                        SimpleFungibleResourceBounds::AtLeast(a) => (*a, None),
+                        SimpleFungibleResourceBounds::Between(a, b) => (*a, Some(*b)),
+                        SimpleFungibleResourceBounds::UnknownAmount => (Decimal::ZERO, None),
+                    };
+                    lower_sum = lower_sum + lo;
+                    add_upper(&mut upper_sum, hi);
+                    allowed = None;
+                }
+                Some(SimpleResourceBounds::NonFungible(b)) => match b {
+                    SimpleNonFungibleResourceBounds::Exact { amount, certain_ids } => {
+                        lower_sum = lower_sum + *amount;
+                        add_upper(&mut upper_sum, Some(*amount));
+                        certain.extend(certain_ids.iter().cloned());
+                        if let Some(al) = allowed.as_mut() {
+                            al.extend(certain_ids.iter().cloned());
+                        }
+                    }
+                    SimpleNonFungibleResourceBounds::NotExact { certain_ids, lower_bound, upper_bound, allowed_ids } => {
+                        lower_sum = lower_sum
+                            + match lower_bound {
+                                LowerBound::NonZero => Decimal::ONE,
+                                LowerBound::Inclusive(x) => *x,
+                            };
+                        add_upper(
+                            &mut upper_sum,
+                            match upper_bound {
+                                UpperBound::Inclusive(x) => Some(*x),
+                                UpperBound::Unbounded => None,
+                            },
+                        );
+                        certain.extend(certain_ids.iter().cloned());
+                        match (allowed.as_mut(), allowed_ids) {
+                            (Some(al), AllowedIds::Allowlist(l)) => al.extend(l.iter().cloned()),
+                            _ => allowed = None,
+                        }
+                    }
+                },
+            }
+        }
+        let gd = f.d_amt;
+        if gd < lower_sum {
+            out.push(Finding {
+                kind: format!("all-deposits-below-sum-of-lower-bounds:{kind_s}"),
+                what: format!("{ra:?}: {gd} deposited in total, but the per-call deposit bounds have lower bounds adding up to {lower_sum}"),
+                lower_side: true,
+            });
+        }
+        if let Some(u) = upper_sum {
+            if gd > u {
+                out.push(Finding {
+                    kind: format!("all-deposits-above-sum-of-upper-bounds:{kind_s}"),
+                    what: format!("{ra:?}: {gd} deposited in total, but the per-call deposit bounds (no call flags unspecified resources) have upper bounds adding up to {u}"),
+                    lower_side: false,
+                });
+            }
+        }
+        if !ra.is_fungible() {
+            // certain ids: as a multiset they must be contained in the deposited ids
+            if multiset_intersection_size(&certain, &f.d_ids) != certain.len() {
+                out.push(Finding {
+                    kind: "all-deposits-certain-id-not-received:non-fungible".into(),
+                    what: format!("{ra:?}: ids {certain:?} are reported as certainly deposited by the individual calls, deposited ids are {:?}", f.d_ids),
+                    lower_side: true,
+                });
+            }
+            if let Some(al) = &allowed {
+                if let Some(i) = f.d_ids.iter().find(|i| !al.contains(i)) {
+                    out.push(Finding {
+                        kind: "all-deposits-id-outside-allow-lists:non-fungible".into(),
+                        what: format!("{ra:?}: id {i} was deposited, but every deposit call of the resource is reported with an allow-list and their union is {al:?}"),
+                        lower_side: false,
+                    });
+                }
+            }
+        }
+    }
+    out
+}
+
 // ------------------------------------------------------------------------------------------------
 // one (manifest, state) evaluation
 // ------------------------------------------------------------------------------------------------
 
-thread_local! {
-    static SIMS: std::cell::RefCell<Vec<Option<Sim>>> = std::cell::RefCell::new(vec![]);
+pub static PROF: [AtomicU64; 6] = [AtomicU64::new(0), AtomicU64::new(0), AtomicU64::new(0), AtomicU64::new(0), AtomicU64::new(0), AtomicU64::new(0)];
+fn prof(i: usize, t: std::time::Instant) {
+    PROF[i].fetch_add(t.elapsed().as_micros() as u64, Ordering::Relaxed);
 }
 
-pub struct Exec {
-    pub class: String,
-    /// Some for successful executions: (account label, actual, findings)
-    pub judged: Option<Vec<(&'static str, Actual, Vec<Finding>)>>,
-    pub post_fp: Option<Vec<u8>>,
+struct ProfGuard(usize, std::time::Instant);
+impl Drop for ProfGuard {
+    fn drop(&mut self) {
+        prof(self.0, self.1);
+    }
+}
+
+thread_local! {
+    static SIMS: std::cell::RefCell<Vec<Option<Sim>>> = std::cell::RefCell::new(vec![]);
 }
 
 fn execute(env: &Env, si: usize, m: TransactionManifestV2) -> Result<(TransactionReceipt, Holdings, Holdings), String> {
@@ -829,14 +1000,20 @@ fn execute(env: &Env, si: usize, m: TransactionManifestV2) -> Result<(Transactio
         while s.len() <= si {
             s.push(None);
         }
+        let t = std::time::Instant::now();
         if s[si].is_none() {
             s[si] = Some(sim_from(&st.snap));
         } else {
             s[si].as_mut().unwrap().restore_snapshot(st.snap.clone());
         }
+        prof(0, t);
         let sim = s[si].as_mut().unwrap();
         let proofs = st.proofs.clone();
+        let t = std::time::Instant::now();
         let r = mc_core::catch(|| sim.execute_manifest(m, proofs));
+        prof(1, t);
+        let t = std::time::Instant::now();
+        let _g = ProfGuard(2, t);
         match r {
             Err(p) => {
                 // the simulator may be in any state: rebuild it next time
@@ -857,6 +1034,8 @@ fn claims_json(cl: &Claims, st: &LedgerState) -> Value {
     json!({
         "net_withdraws": cl.withdraws.iter().map(|(k, v)| (name(k), format!("{v:?}"))).collect::<BTreeMap<_, _>>(),
         "net_deposits": cl.deposits.iter().map(|(k, v)| (name(k), format!("{v:?}"))).collect::<BTreeMap<_, _>>(),
+        "all_withdraws": cl.all_withdraws.iter().map(|(k, v)| (name(k), format!("{v:?}"))).collect::<BTreeMap<_, _>>(),
+        "all_deposits": cl.all_deposits.iter().map(|(k, v)| (name(k), format!("{v:?}"))).collect::<BTreeMap<_, _>>(),
     })
 }
 
@@ -905,11 +1084,17 @@ fn holdings_fp(a: &Holdings, b: &Holdings, st: &str) -> Vec<u8> {
 pub fn evaluate(env: &Env, ops: &[Op], si: usize, ev: &mut Evaluated) {
     let st = &env.states[si];
     let r = &env.res;
-    let Some(m) = build_manifest(ops, st, r, None) else {
+    let t = std::time::Instant::now();
+    let built = build_manifest(ops, st, r, None);
+    prof(3, t);
+    let Some(m) = built else {
         ev.classes.push("unbuildable:no-live-bucket".into());
         return;
     };
-    let claims = match mc_core::catch(|| analyse(&m)) {
+    let t = std::time::Instant::now();
+    let analysed = mc_core::catch(|| analyse(&m));
+    prof(4, t);
+    let claims = match analysed {
         Err(p) => {
             // a panic of the analyser is outside the statement; reported as information
             ev.infos.push(format!("analyser-panic@{}", mc_core::last_panic_location()));
@@ -928,6 +1113,10 @@ pub fn evaluate(env: &Env, ops: &[Op], si: usize, ev: &mut Evaluated) {
         Ok(Ok(c)) => c,
     };
     ev.analysed += 1;
+    if std::env::var("C38_DRY").is_ok() {
+        ev.classes.push("dry:would-execute".into());
+        return;
+    }
     let (receipt, after_a, after_b) = match execute(env, si, m) {
         Err(p) => {
             ev.infos.push(format!("execution-panic-or-harness-read-failure: {}", mc_core::truncate(&p, 120)));
@@ -962,7 +1151,7 @@ pub fn evaluate(env: &Env, ops: &[Op], si: usize, ev: &mut Evaluated) {
             all_ok = false;
             continue;
         }
-        let findings = judge(&actual, claims.withdraws.get(&acct), claims.deposits.get(&acct));
+        let findings = claims.judge_account(&actual, &acct);
         for f in findings {
             all_ok = false;
             // ---- route classification (only ever adds a prefix; never drops a finding)
@@ -977,7 +1166,7 @@ pub fn evaluate(env: &Env, ops: &[Op], si: usize, ev: &mut Evaluated) {
             if ops.contains(&Op::WtInclEmptyAllow) {
                 if let Some(m2) = build_manifest(ops, st, r, Some(Op::WtInclEmptyAllow)) {
                     if let Ok(Ok(c2)) = mc_core::catch(|| analyse(&m2)) {
-                        let again = judge(&actual, c2.withdraws.get(&acct), c2.deposits.get(&acct));
+                        let again = c2.judge_account(&actual, &acct);
                         if !again.iter().any(|g| g.kind == f.kind) {
                             key = format!("via-C37-normalize-empty-allowlist:{key}");
                         }
@@ -1065,7 +1254,8 @@ pub fn run(ctx: Ctx) -> ! {
         items.extend(deep);
     }
     let n_states = env.states.len();
-    let wall_cap_s: f64 = ctx.pick(50.0, 1150.0);
+    // development override only (the machine is shared and sometimes heavily loaded)
+    let wall_cap_s: f64 = std::env::var("C38_WALL_CAP_S").ok().and_then(|s| s.parse().ok()).unwrap_or(ctx.pick(50.0, 1150.0));
 
     // violations: keep, per key, the case with the smallest (sequence index, state index) so that the reported
     // reproducer is the shortest / simplest one and the same in every run
@@ -1131,6 +1321,10 @@ pub fn run(ctx: Ctx) -> ! {
         done_items.fetch_add(1, Ordering::Relaxed);
     });
 
+    if std::env::var("C38_PROFILE").is_ok() {
+        let p: Vec<u64> = PROF.iter().map(|x| x.load(Ordering::Relaxed) / 1000).collect();
+        eprintln!("profile (ms, summed over threads): restore {} exec {} read-holdings {} build {} analyse {}", p[0], p[1], p[2], p[3], p[4]);
+    }
     let capped = capped.load(Ordering::Relaxed);
     for (key, (pos, n, v)) in best.into_inner().unwrap() {
         let mut case = v.case;
